@@ -1,10 +1,12 @@
 #!/bin/bash
 # seeds_regress.sh [ID-NN ...] — applies every kept seed (or the ones named) to /repo in turn, runs the quick
-# check of its property, reverts; prints one line per seed. Every line must say exit 1 (the seed is reported).
+# check of its property, reverts; prints one line per seed. Every line must say exit 1 (the seed is reported)
+# or `superseded` (meta.json says which later fix made the seeded change harmless).
 cd /verif
 seeds=${@:-$(ls seeded)}
 for s in $seeds; do
   id=${s%%-*}
+  if grep -q '"superseded"' seeded/$s/meta.json; then echo "$s superseded (the change no longer breaks the property on the current tree) -> skipped"; continue; fi
   out=$(tools/try_seed.sh /verif/seeded/$s/patch.diff $id 2>&1 | grep "\[check\]" | tail -1 | sed 's/.*\[check\]//' | cut -c1-150)
   echo "$s $out"
 done
